@@ -65,7 +65,7 @@ def maxT : List (Row Nat Float) → Int
   | [] => 0
   | r :: rs => rs.foldl (fun m r => max m r.t) r.t
 
-/-- flags: windows, open, close, high, low, count+sum+avg -/
+/-- flags: windows, open, close, high, low, sum+avg (the count is observable only through avg) -/
 def specFlags (cd : CandleDuration) (z : Zone) (rows : List (Row Nat Float)) (out : List (Candle Nat Float)) : String :=
   let wins := dedupSorted (rows.map (fun r => truncate cd z r.t))
   let fW := out.map (·.epoch) == wins.map (· / 1000000000)
@@ -80,7 +80,7 @@ def specFlags (cd : CandleDuration) (z : Zone) (rows : List (Row Nat Float)) (ou
   let fS := per (fun c g =>
     let n := match g with | [] => 0 | r :: _ => r.sums.length
     let sums := g.foldl (fun acc r => addSums f64Ops acc r.sums) (List.replicate n 0.0)
-    c.count == g.length && (c.sums.map showF64) == (sums.map showF64) &&
+    (c.sums.map showF64) == (sums.map showF64) &&
     ((c.avgs f64Ops).map showF64) == (sums.map (fun s => showF64 (s / Float.ofInt g.length))))
   b2s fW ++ b2s fO ++ b2s fC ++ b2s fH ++ b2s fL ++ b2s fS
 
@@ -112,6 +112,37 @@ def candleOp : Op := fun args =>
     | _, _, _, _ => badArgs
   | _ => badArgs
 
-def ops : OpTable := [("candle", candleOp)]
+def showOHLC (c : Candle Nat Float) : String :=
+  ",".intercalate [toString c.epoch, toString c.op, toString c.hi, toString c.lo, toString c.cl]
+
+def f32Eq (a b : Nat) : Bool := !f32IsNaN a && !f32IsNaN b && f32Key a == f32Key b
+
+/-- `compose <hex fine tf> <hex coarse tf> <zone> <tick rows>`: fine candles re-aggregated vs. direct -/
+def composeOp : Op := fun args =>
+  match args with
+  | [fs, cs, zs, rs] =>
+    match parseStr fs, parseStr cs, parseZone zs, parseChunks false rs with
+    | some tff, some tfc, some z, some [rows] =>
+      match candleDurationFromString tff, candleDurationFromString tfc with
+      | some cdF, some cdC =>
+        if rows.isEmpty then "M:err:empty" else
+        let co := composed f32Ops f64Ops cdF cdC z rows
+        let di := direct f32Ops f64Ops cdC z rows
+        let zipAll (f : Candle Nat Float → Candle Nat Float → Bool) : Bool := (co.zip di).all (fun (a, b) => f a b)
+        let fW := co.map (·.epoch) == di.map (·.epoch)
+        let flags := b2s fW ++ b2s (zipAll (fun a b => a.op == b.op)) ++ b2s (zipAll (fun a b => a.cl == b.cl)) ++
+          b2s (zipAll (fun a b => f32Eq a.hi b.hi)) ++ b2s (zipAll (fun a b => f32Eq a.lo b.lo))
+        let line := ";".intercalate (co.map showOHLC) ++ " | " ++ ";".intercalate (di.map showOHLC) ++ " P=" ++ flags
+        let inScope := isUtc z && !hasNaN rows && rows.all (fun r => r.t != goZero) && divides cdF cdC
+        if inScope then
+          let hy (cd : CandleDuration) := rows.foldl (fun acc r => acc ++ (windowHyps cd z r.t).filter (fun h => !acc.contains h)) []
+          let hyps := hy cdF ++ (hy cdC).filter (fun h => !(hy cdF).contains h)
+          s!"M:{line}\tS:~P=11111\tH:{",".intercalate hyps}"
+        else s!"M:{line}"
+      | _, _ => "M:err:init"
+    | _, _, _, _ => badArgs
+  | _ => badArgs
+
+def ops : OpTable := [("candle", candleOp), ("compose", composeOp)]
 
 end Mkts.Driver.Agg
